@@ -436,6 +436,7 @@ func Run(r *ev.Run) {
 		"at every step every protect entry point (library, registry, translator incl. searchable, column encryptor chain incl. masking columns) protects fresh values carrying a unique marker MK<16 hex> (plus 1- and 5-byte values judged by equality) under every client; " +
 		"every reveal-type operation is run under every other client on those values (quick: on the final key state and a seeded third of the intermediate states; thorough: every state, three value sizes); " +
 		"plus: pairwise comparison of all key material read back per client after every step; relocation of every stored key file / key ring of A to every name of B; token stores (memory, BoltDB, each plain and wrapped with encryption) detokenized under B; every RPC of the gRPC service interfaces (by reflection) and every route of the HTTP API (by reflection over the gin engine) called with TLS identity A and a forged request identity B; the gRPC server as grpc_api.NewServer builds and registers it (identity from the TLS connection, tokenizer configured) on a unix socket, every RPC family called through the generated clients by every ordered pair of three certificate identities with the request's client_id empty / own / the other certificate's / an ordinary client's / an id without keys; " +
+		"columns bound to an explicit per-column client_id (every column kind: encrypted, searchable, masked, every token type consistent and not, type-aware with every failure policy; bound to the writer / to another identity / unbound; token stores memory and BoltDB, plain and encrypting): written through the query observers of the PostgreSQL proxy factory under every identity's session, stored by the rig's database, read through the decryption subscribers of the factory (type decoder, TokenProcessor, hmac, envelope detector + DecryptHandler + masking, hmac, type encoder) under every identity in the text and binary result formats - the session's identity decides who reveals; " +
 		"a case is non-trivial when the same operation reveals the value to its owner; distinct = (keystore, producing entry point, reveal operation, rotations of owner, rotations of requester, outcome) tuples and the per-part class keys"
 	r.Assumptions = []string{
 		"crypto library replaced by the pure-Go gothemis stand-in (Secure Cell Seal / Secure Message / EC keys); 'cannot be decrypted with another key/context' is the stand-in's AEAD contract",
@@ -622,6 +623,7 @@ func Run(r *ev.Run) {
 	part(r, "relocation-v1", func() { relocationV1(r, rng) })
 	part(r, "relocation-v2", func() { relocationV2(r, rng) })
 	part(r, "token-stores", func() { tokenStores(r, envs, rng) })
+	part(r, "columns-bound-to-client-id", func() { boundColumns(r, envs, gen.New(r.Seed, "c02-bound")) })
 	part(r, "identity-override-grpc", func() { identityOverrideGRPC(r, envs[0], rng) })
 	part(r, "identity-override-http", func() { identityOverrideHTTP(r, envs[0], rng) })
 	part(r, "grpc-server-tls", func() { grpcServerTLS(r) })
